@@ -46,19 +46,74 @@ Theorem C07_limit_zero_refuted : exists l, pa_limit 0 l <> firstn 0 l.
 Proof. exists [[]]. discriminate. Qed.
 Print Assumptions C07_limit_zero_refuted.
 
-(* HAVING keeps, in order, exactly the rows on which the rewritten condition holds ... *)
-Theorem C07_having_filter : forall p l, pa_having p l = filter (pa_hholds p) l.
+(* HAVING keeps, in order, exactly the rows the filter keeps (pa_hkeep: the value of the rewritten
+   condition, on the evaluation path applyHavingFilter chooses for the text) ... *)
+Theorem C07_having_filter : forall p l, pa_having p l = filter (pa_hkeep p) l.
 Proof. exact pa_having_filter. Qed.
 Print Assumptions C07_having_filter.
 
-(* ... and on the result row of a group the rewritten condition (aggregate calls replaced by hidden
-   columns __having_k__) decides the relational condition over the group's aggregate values, selected
-   or not, and over aliases of SELECT items *)
+(* ... and on the result row of a group the value of the rewritten condition (aggregate calls replaced
+   by hidden columns __having_k__) is the relational condition over the group's aggregate values,
+   selected or not, and over aliases of SELECT items - comparisons, AND / OR, a searched CASE used as
+   the condition (true iff its value is > 0) and a searched CASE compared with an expression *)
 Theorem C07_having_relational : forall q p p' g,
   pq_having q = Some p -> pa_hpred_src p -> fst (pa_hx q) = Some p' ->
   pa_hholds p' (pa_post_row q (pa_base_row q (snd (pa_hx q)) g)) = pa_survives q g.
 Proof. exact pa_having_sem. Qed.
 Print Assumptions C07_having_relational.
+
+(* ... and the filter keeps a group iff it satisfies the relational condition, for every HAVING text
+   without CASE and every text that is one CASE ... END (whatever aggregates, selected or not, occur in
+   its WHEN conditions and results) *)
+Theorem C07_having_keeps_relational : forall q p p' g,
+  pq_having q = Some p -> pa_hpred_src p -> pa_hroute_ok p -> fst (pa_hx q) = Some p' ->
+  pa_hkeep p' (pa_post_row q (pa_base_row q (snd (pa_hx q)) g)) = pa_survives q g.
+Proof. exact pa_having_keep_sem. Qed.
+Print Assumptions C07_having_keeps_relational.
+
+(* the other shapes are findings (F10h, F10i, F10j): SELECT COUNT( * ) AS a0 ... GROUP BY g on the group t = 20
+     HAVING CASE WHEN MAX(t) > 15 THEN 1 ELSE 0 END > 0           drops the group although it satisfies it;
+     HAVING a0 > 5 AND CASE WHEN MAX(t) > 15 THEN 1 ELSE 0 END    keeps the group although a0 = 1;
+     HAVING CASE WHEN MAX(t) > 15 THEN g ELSE 0 END               keeps the group g = -3 (a Go int) although
+                                                                  the value of the CASE is not > 0 *)
+Definition pa_ex_case_ops : list pa_cmpop := [PaGt].
+Definition pa_ex_case_es : list pa_hexp :=
+  [PaHAgg (PaMax, PaField 0); PaHLit (15 # 1); PaHLit (1 # 1); PaHLit (0 # 1)].
+Definition pa_ex_case_q (h : pa_hpred) : pa_query := {|
+  pq_ngroup := 1; pq_items := [PaPAgg (PaCount, PaStar)]; pq_distinct := false;
+  pq_having := Some h; pq_order := []; pq_limit := 0 |}.
+Definition pa_ex_case_g : pa_group := ([PaStr [97%N]], [[(0, 20%Z)]]).
+Definition pa_ex_case_row (h : pa_hpred) : pa_row :=
+  pa_post_row (pa_ex_case_q h) (pa_base_row (pa_ex_case_q h) (snd (pa_hx (pa_ex_case_q h))) pa_ex_case_g).
+Definition pa_ex_case_keep (h : pa_hpred) : option bool :=
+  option_map (fun p' => pa_hkeep p' (pa_ex_case_row h)) (fst (pa_hx (pa_ex_case_q h))).
+Theorem C07_having_case_compared_refuted :
+  let h := PaHCaseCmp PaGt pa_ex_case_ops pa_ex_case_es (PaHLit (0 # 1)) in
+  pa_hpred_src h /\ pa_survives (pa_ex_case_q h) pa_ex_case_g = true /\ pa_ex_case_keep h = Some false.
+Proof. split; [split; repeat constructor|]. vm_compute. split; reflexivity. Qed.
+Print Assumptions C07_having_case_compared_refuted.
+Theorem C07_having_case_with_and_refuted :
+  let h := PaHAnd (PaHCmp PaGt (PaHCol (PaItem 0)) (PaHLit (5 # 1))) (PaHCase pa_ex_case_ops pa_ex_case_es) in
+  pa_hpred_src h /\ pa_survives (pa_ex_case_q h) pa_ex_case_g = false /\ pa_ex_case_keep h = Some true.
+Proof. split; [repeat constructor|]. vm_compute. split; reflexivity. Qed.
+Print Assumptions C07_having_case_with_and_refuted.
+Theorem C07_having_case_int_result_refuted :
+  let h := PaHCase pa_ex_case_ops [PaHAgg (PaMax, PaField 0); PaHLit (15 # 1); PaHCol (PaGroup 0); PaHLit (0 # 1)] in
+  let g : pa_group := ([PaNum (-3 # 1)], [[(0, 20%Z)]]) in
+  pa_hpred_src h /\ pa_survives (pa_ex_case_q h) g = false
+  /\ option_map (fun p' => pa_hkeep p' (pa_post_row (pa_ex_case_q h)
+                   (pa_base_row (pa_ex_case_q h) (snd (pa_hx (pa_ex_case_q h))) g))) (fst (pa_hx (pa_ex_case_q h)))
+     = Some true.
+Proof. split; [repeat constructor|]. vm_compute. split; reflexivity. Qed.
+Print Assumptions C07_having_case_int_result_refuted.
+(* non-vacuity of C07_having_keeps_relational on a CASE: the same CASE as the whole condition is routed
+   to the evaluating path, keeps the group t = 20 and drops the group t = 10 *)
+Example C07_having_case_example :
+  let h := PaHCase pa_ex_case_ops pa_ex_case_es in
+  pa_hpred_src h /\ pa_hroute_ok h /\ pa_ex_case_keep h = Some true
+  /\ pa_run (pa_ex_case_q h) [] [([PaStr [97%N]], [(0, 20%Z)]); ([PaStr [98%N]], [(0, 10%Z)])]
+     = [[(PaGroup 0, PaStr [97%N]); (PaItem 0, PaNum (1 # 1))]].
+Proof. split; [repeat constructor|]. split; [repeat constructor|]. vm_compute. split; reflexivity. Qed.
 
 (* DISTINCT: no two delivered rows have the same serialisation, and nothing new appears *)
 Theorem C07_distinct_nodup : forall l,
